@@ -60,7 +60,7 @@ func (g *genCtx) seqHash(cfg *InstCfg) {
 
 // genSeqCache builds a sequential cache scenario for a property.
 func genSeqCache(prop string, seed uint64, tier string, kinds []string) *SeqScenario {
-	g := &genCtx{r: simrt.NewRNG(seed, 0x5E9), tier: tier}
+	g := &genCtx{r: simrt.NewRNG(seed, 0x5E9), tier: tier, nextVal: 1000}
 	sc := &SeqScenario{Prop: prop, Family: "cache", Mode: "model", SchedSeed: simrt.Mix64(seed ^ 0x5CED)}
 	sc.Epoch = time.Date(2000, 1, 1, 0, 0, 0, 0, time.UTC).UnixNano() + g.r.Int63n(int64(150*365*24)*int64(time.Hour))
 	kind := kinds[g.r.Intn(len(kinds))]
@@ -282,7 +282,7 @@ func genSeqCache(prop string, seed uint64, tier string, kinds []string) *SeqScen
 
 // genSeqMap builds a sequential Map/MapOf scenario.
 func genSeqMap(prop string, seed uint64, tier string, kinds []string) *SeqScenario {
-	g := &genCtx{r: simrt.NewRNG(seed, 0x5EA), tier: tier}
+	g := &genCtx{r: simrt.NewRNG(seed, 0x5EA), tier: tier, nextVal: 1000}
 	sc := &SeqScenario{Prop: prop, Family: "map", Mode: "model", SchedSeed: simrt.Mix64(seed ^ 0x5CED)}
 	sc.Epoch = time.Date(2020, 1, 1, 0, 0, 0, 0, time.UTC).UnixNano()
 	kind := kinds[g.r.Intn(len(kinds))]
